@@ -415,11 +415,18 @@ func waitOn(w chan struct{}, dl time.Time) {
 		return
 	}
 	t := time.NewTimer(d)
+	fired := false
 	select {
 	case <-w:
 	case <-t.C:
+		fired = true
 	}
 	t.Stop()
+	if fired {
+		// goroutines whose deadlines expire at the same virtual instant continue
+		// in a scheduler-chosen (reproducible) order
+		sim.Yield(sim.GateNet, "net.deadline")
+	}
 }
 
 // Read implements net.Conn.
